@@ -12,7 +12,7 @@ def run(ctx):
     run_coll(ctx, 1 if ctx.quick() else 3, 1, "failing", oracle_props=["C07", "C06", "C08"], label="failing(collections)")
     finish_coll_obligation(ctx)
     return run_arena_property(ctx, ["BumpProof.Props.C07", "BumpProof.Props.Hist2@C07", "BumpProof.Props.Targets@C07", "BumpProof.Props.C07Coll"],
-        runs_quick=[('faults', 200, 100)],
+        runs_quick=[('faults', 700, 100)],
         runs_thorough=[('faults', 8000, 200), ('ledger', 2000, 200)],
         fields=(0, 1, 6), extra_oracles=('C01','C02','C05','C10'),
         note='failure theorems on the model (error value, state intact) + correspondence under injected base-allocator failures + content/invariant oracles after failures')
